@@ -316,3 +316,30 @@ mod tests {
         assert_eq!(found.len(), expected.len());
     }
 }
+
+/// Forwarding wrappers over the private grid-keying kernel.
+///
+/// Compiled only with the `verif-hooks` cargo feature; used by external
+/// verification harnesses.
+#[cfg(feature = "verif-hooks")]
+#[doc(hidden)]
+#[allow(missing_docs, clippy::must_use_candidate)]
+pub mod verif_hooks_grid {
+    use super::HashGridIndex;
+    use crate::geometry::traits::coordinate::CoordinateScalar;
+
+    /// `HashGridIndex::<T, D, usize>::new(cell_size).key_for_coords(coords)` with the
+    /// private key type unwrapped to its cell coordinates.
+    pub fn key_for_coords<T: CoordinateScalar, const D: usize>(
+        cell_size: T,
+        coords: &[T; D],
+    ) -> Option<[T; D]> {
+        let grid: HashGridIndex<T, D, usize> = HashGridIndex::new(cell_size);
+        grid.key_for_coords(coords).map(|key| key.0)
+    }
+
+    pub fn is_usable<T: CoordinateScalar, const D: usize>(cell_size: T) -> bool {
+        let grid: HashGridIndex<T, D, usize> = HashGridIndex::new(cell_size);
+        grid.is_usable()
+    }
+}
